@@ -136,6 +136,16 @@ def snapshot_cases():
         A.For(V("i"), A.lst(I(1), I(2)), [P(A.call("f")), P(S("after call in loop"))])]
     cases["return_null_at_top_level_in_loop"] = [P(S("before")), A.For(V("_"), A.lst(I(1), I(2)), [P(S("body")), RN()]), P(S("after loop"))]
     cases["return_value_at_top_level_in_loop"] = [P(S("before")), A.While(A.Bool(True), [P(S("body")), A.Return(I(0))]), P(S("after loop"))]
+    # a function literal called on the spot is a call like any other: a jump cannot leave it
+    lit = lambda body, params=(), args=(): A.ExprStmt(A.Call(A.FuncE([V(p) for p in params], False, body), [(a, False) for a in args]))
+    cases["break_in_called_literal"] = [A.For(V("i"), A.lst(I(1), I(2)), [P(S("iter")), lit([P(S("in literal")), A.Break()]), P(S("WRONG"))]), P(S("WRONG"))]
+    cases["continue_in_called_literal"] = [A.Declare(V("n"), I(0)), A.While(A.Bin("<", V("n"), I(2)), [A.OpAssign("+", V("n"), I(1)), lit([A.If([(A.Bool(True), [A.Continue()])], None)]), P(S("WRONG"))]), P(S("WRONG"))]
+    cases["break_in_called_literal_with_args"] = [A.For(V("i"), A.lst(I(1)), [lit([A.Break()], ("a",), (I(1),)), P(S("WRONG"))])]
+    cases["return_in_called_literal"] = [A.FuncStmt("f", [], False, [A.For(V("i"), A.lst(I(1), I(2)), [lit([A.Return(I(5))]), P(V("i"))]), A.Return(S("end of f"))]), P(A.call("f")),
+                                         A.For(V("_"), A.lst(I(1), I(2)), [P(A.Call(A.FuncE([], False, [A.For(V("_"), A.lst(I(7)), [A.Return(S("from inner loop"))]), A.Return(S("WRONG"))]), []))])]
+    cases["return_through_discard_loops"] = [A.FuncStmt("g", [], False, [A.For(V("_"), A.lst(I(1), I(2)), [P(S("g body")), A.Return(S("left g"))]), P(S("WRONG")), A.Return(S("WRONG"))]), P(A.call("g")),
+                                             A.FuncStmt("h", [], False, [A.For(A.lst(V("_"), V("_")), S("ab"), [A.For(V("_"), A.obj(("k", I(1))), [A.Return(I(9))]), P(S("WRONG"))]), A.Return(I(0))]), P(A.call("h")),
+                                             A.For(V("_"), A.lst(I(1), I(2), I(3)), [A.If([(A.Bool(True), [A.Continue()])], None), P(S("WRONG"))]), A.For(V("_"), A.lst(I(1), I(2)), [P(S("once")), A.Break()])]
     cases["empty_bodies"] = [A.For(V("_"), A.lst(I(1), I(2)), []), P(S("a")), A.Declare(V("n"), I(0)), A.While(A.Bin("<", V("n"), I(0)), []), P(S("b")),
                              A.FuncStmt("e", [], False, []), P(A.call("e")), A.Block([A.Block([P(S("c"))])]), A.For(V("_"), A.lst(), W()), A.For(V("_"), S(""), W()), A.For(V("_"), A.obj(), W()),
                              A.For(V("_"), A.Range(I(2), I(2)), W()), P(S("d"))]
